@@ -733,7 +733,19 @@ fn gen_wrappers(em: &mut Em, rng: &mut Rng) {
     } else {
         // few distinct probabilities so that ties between members are frequent
         let levels = [0u32, 16, 32, 32, 48, 64];
-        let tab: Vec<Vec<u32>> = (0..m).map(|_| (0..u).map(|_| *rng.pick(&levels)).collect()).collect();
+        let mut tab: Vec<Vec<u32>> = (0..m).map(|_| (0..u).map(|_| *rng.pick(&levels)).collect()).collect();
+        if adj.iter().any(|a| *a != 0) {
+            // ill-behaved members are outside the property and compared literally (truncation / panic
+            // branches): keep their probabilities tie-free, so that the tie-break — which the statement
+            // does not fix — never decides such a comparison
+            for t in 0..u {
+                let mut order: Vec<u32> = (0..m as u32).collect();
+                rng.shuffle(&mut order);
+                for j in 0..m {
+                    tab[j][t] = 8 * order[j] + rng.below(8) as u32;
+                }
+            }
+        }
         let mut labels: Vec<usize> = (0..m).map(|j| 10 + j).collect();
         rng.shuffle(&mut labels);
         let ties = (0..u).any(|t| {
